@@ -64,7 +64,7 @@ def observe (bs : Bytes) : String :=
     | .peerUp =>
       match peerUp deps bs with
       | .ok u =>
-        s!"PU {h} pph={p} local={hexOrDash u.localAddr}:{u.localPort}:{u.remotePort} sent={hexOrDash u.openSent} rcvd={hexOrDash u.openRcvd} pair=same tlvs={showTlvs u.tlvs}"
+        s!"PU {h} pph={p} local={hexOrDash u.localAddr}:{u.localPort}:{u.remotePort} sent={hexOrDash u.openSent} rcvd={hexOrDash u.openRcvd} pair=same tlvs={showTlvs u.tlvs} cfg=ok"
       | _ => s!"PU {h} pph={p} panic"
     | .initiation => s!"IN {h} tlvs={showO showTlvs (initiationTlvs bs)}"
     | .termination =>
